@@ -163,7 +163,10 @@ CTYPES_MP = [('multipart/form-data; boundary=' + B, 'ok'), ('Multipart/Form-Data
              ('multipart/form-data', 'no_boundary'), ('multipart/form-data; boundary=', 'empty_boundary'), ('multipart/form-data; boundary="' + B + '"', 'quoted_boundary'),
              ('multipart/form-data; boundary=other', 'mismatch'), ('multipart/mixed; boundary=' + B, 'mixed'), ('multipart/form-data; charset=utf-8; boundary=' + B, 'param_first'),
              ('multipart/form-data; boundary=' + B + '; charset=utf-8', 'param_after'), ('multipart/', 'bare'), ('multipart/form-data;boundary=' + B, 'no_space'),
-             ('multipart/form-data; boundary=a\rb', 'cr_in_boundary'), ('multipart/form-data; boundary=' + 'z' * 300, 'long_boundary')]
+             ('multipart/form-data; boundary=a\rb', 'cr_in_boundary'), ('multipart/form-data; boundary=' + 'z' * 300, 'long_boundary'),
+             # boundary parameters outside ASCII: a Latin-1 byte, UTF-8 bytes in their WSGI (Latin-1) form, text above U+00FF
+             ('multipart/form-data; boundary=caf\xe9', 'latin1_boundary'), ('multipart/form-data; boundary=b\xc3\xbccher', 'utf8_boundary'),
+             ('multipart/form-data; boundary=\u0433\u0440\u0430\u043d\u0438\u0446\u0430', 'cyrillic_boundary'), ('multipart/form-data; boundary=' + B + '\xff', 'ff_after_boundary')]
 
 JSON_BODIES = [b'{', b'}', b'{"a":', b'[1,2', b'nul', b'{"a":1}x', b"{'a':1}", b'\xff\xfe', b'{"a":"\xff"}', b'', b' ', b'[]', b'[1,2,3]', b'1', b'"str"', b'null', b'true',
                b'NaN', b'{"a":NaN}', b'1e999', b'{"a":1,"a":2}', b'{"a":{"b":[1,{"c":null}]}}', b'{"k":"v"}', b'\xef\xbb\xbf{"a":1}', b'{"a":1}\n', b'[' * 100 + b']' * 100,
